@@ -367,9 +367,62 @@ fn probe_own_vars(func: &str) -> bool {
     false
 }
 
+/// load-time reconstruction: a market built with every choice of base (and the default), written to JSON and loaded again, is the
+/// market that `FXRates::try_new(<the quotes of the document>, Some(<first currency of the document>))` builds -- same quotes, same
+/// currency order (base first), same cross rates -- and it re-serialises to a document with the same currencies and pairs.
+/// (The quotes are compared as the document's parser delivers them: float text conversion is serde_json's business, see C16.)
+fn probe_roundtrip(func: &str) -> bool {
+    use rateslib::json::JSON;
+    for n in 2..=5usize {
+        for parent in shapes(n) {
+            for rot in 0..(n - 1) {
+                let m = market(n, &parent, 0b1010 & ((1 << (n - 1)) - 1), rot);
+                for base in std::iter::once(None).chain((0..n).map(Some)) {
+                    let what = format!("FXRates::try_new([{}], base={:?}) -> to_json -> from_json", show(&m), base.map(|b| CCYS[b]));
+                    let fxr = match build(&m, base) { Ok(f) => f, Err(_) => { report("probe", func, &what, "Err at construction", "Ok", false); return true; } };
+                    crate::CASES.fetch_add(1, std::sync::atomic::Ordering::Relaxed);
+                    let doc = match fxr.to_json() { Ok(d) => d, Err(_) => { report("probe", func, &what, "to_json failed", "a document", false); return true; } };
+                    let back = match std::panic::catch_unwind(std::panic::AssertUnwindSafe(|| FXRates::from_json(&doc))) {
+                        Ok(Ok(b)) => b,
+                        Ok(Err(_)) => { report("probe", func, &what, "Err on loading", "the market that was saved", false); return true; }
+                        Err(_) => { report("probe", func, &what, "PANIC on loading", "the market that was saved", false); return true; }
+                    };
+                    let v: serde_json::Value = serde_json::from_str(&doc).unwrap();
+                    let quotes: Vec<FXRate> = serde_json::from_value(v["fx_rates"].clone()).unwrap();
+                    let first: Ccy = serde_json::from_value(v["currencies"][0].clone()).unwrap();
+                    let expect = match FXRates::try_new(quotes, Some(first)) { Ok(e) => e, Err(_) => { report("probe", func, &what, "the document's own quotes and first currency are refused by try_new", "Ok", false); return true; } };
+                    if back != expect {
+                        report("probe", func, &what, &format!("a market that re-serialises as {}", back.to_json().unwrap_or_default()), &format!("FXRates::try_new(<quotes of the document>, Some({})) for the document {}", v["currencies"][0], doc), false);
+                        return true;
+                    }
+                    // the saved market itself had the same currency order and pairs
+                    let v2: serde_json::Value = serde_json::from_str(&back.to_json().unwrap_or_default()).unwrap_or_default();
+                    if v2["currencies"] != v["currencies"] {
+                        report("probe", func, &format!("{}: currency order of the loaded market", what), &v2["currencies"].to_string(), &v["currencies"].to_string(), false);
+                        return true;
+                    }
+                    for i in 0..n {
+                        for j in 0..n {
+                            let a = fxr.rate(&ccy(CCYS[i]), &ccy(CCYS[j])).map(|x| val(&x));
+                            let b = back.rate(&ccy(CCYS[i]), &ccy(CCYS[j])).map(|x| val(&x));
+                            let same = match (a, b) { (Some(x), Some(y)) => close(x, y), (None, None) => true, _ => false };
+                            if !same {
+                                report("probe", func, &format!("{}: rate({}, {})", what, CCYS[i], CCYS[j]), &format!("{:?}", b), &format!("{:?}", a), false);
+                                return true;
+                            }
+                        }
+                    }
+                }
+            }
+        }
+    }
+    false
+}
+
 pub fn probe(func: &str) -> bool {
     std::panic::set_hook(Box::new(|_| {}));
     match func {
+        "try_from" | "from_json" => probe_roundtrip(func),
         "update" | "set_ad_order" | "rate" => probe_history(func) || probe_own_vars(func) || probe_build(func),
         "try_new" | "create_fx_array" | "create_fx_array_lift" | "mut_arrays_remaining_elements" | "create_initial_fx_array" | "create_initial_edges" => probe_own_vars(func) || probe_build(func) || probe_history(func),
         _ => false,
